@@ -16,6 +16,7 @@ THEOREMS = [
     "Mtv.Session.resume_skips_exchange",
     "Mtv.Session.fresh_or_torn_start",
     "Mtv.Session.start_on_any_storage",
+    "Mtv.Session.given_storage_is_used",
 ]
 RULE = ("operations on real files in a per-run scratch directory through session.NewFromFile(...).Store/Load and "
         "mtproto.NewMTProto: round trips on six path shapes, store/load histories with forced (equal) modification "
